@@ -40,7 +40,8 @@ def run_demo(src, repo):
     """returns (ok, tail of output)"""
     demo = os.path.join(src, "demo")
     shutil.rmtree(SC, ignore_errors=True)
-    if os.path.exists(os.path.join(demo, "go.mod")):
+    is_util = any(re.search(r"^package util\b", open(f).read(), re.M) for f in glob.glob(os.path.join(demo, "*_test.go")))
+    if os.path.exists(os.path.join(demo, "go.mod")) and not is_util:
         shutil.copytree(demo, SC)
         gm = open(os.path.join(SC, "go.mod")).read()
         gm = re.sub(r"(replace github.com/0chain/common => )\S+", r"\1" + repo, gm)
